@@ -8,7 +8,8 @@
    it yields under the scanner's skip flags and filters, so blocks emptied by skip flags are frames
    with no objects; the theorems hold for arbitrary object lists per block. *)
 From Coq Require Import ZArith List Bool Arith Lia.
-From Verif Require Import Framing.Model Framing.Valid Framing.Proofs C06.Spec C06.Proofs C06.Bridge
+From Verif Require Import Framing.Model Framing.Valid Framing.Proofs Framing.Bytes C06.Spec C06.Proofs
+                          C06.ProofsBytes C06.Bridge
                           C09.Spec C09.Proofs.
 Import ListNotations.
 Open Scope Z_scope.
@@ -51,6 +52,20 @@ Theorem C09_resume : forall (T : Type) (fs : list (frame T)) (j : nat),
     out (scan current rest (total_size fs - off)) = Done.
 Proof. exact (@resume). Qed.
 Print Assumptions C09_resume.
+
+(* 2b. data[offset:] literally: dropping from the file's bytes the encoding of the first j blocks
+   leaves the encoding of the remaining blocks, and the byte-level scan of that suffix is the
+   frame-level scan that [C09_resume] speaks of (Framing/Bytes.v: prefix decoding, io.ReadFull on
+   bytes, proto.Unmarshal as arbitrary functions of the bytes). *)
+Theorem C09_resume_bytes :
+  forall (T : Type) (parse_hdr : list Z -> hdr) (parse_blob : list Z -> blobp T) v
+         (bfs : list bframe) (j : nat),
+  Forall (aligned parse_hdr) bfs -> Forall (fun bf => 0 <= bf_pfx bf) bfs ->
+  b_scan parse_hdr parse_blob v (skipn (length (encode (firstn j bfs))) (encode bfs)) =
+  scan v (map (abstract parse_hdr parse_blob) (skipn j bfs))
+         (total_size (map (abstract parse_hdr parse_blob) (skipn j bfs))).
+Proof. exact (@resume_bytes). Qed.
+Print Assumptions C09_resume_bytes.
 
 (* 3. Stop after ANY number k of returned objects (0 .. all) and resume at the reported offset:
       k' <= k objects precede the current block, and those followed by what the second scanner
